@@ -86,6 +86,13 @@ pub fn check_modules(files: &BTreeMap<String, String>, returned: &[String], tags
         for (n, c) in table.value_decls.iter().filter(|(_, c)| **c > 1) {
             fails.push(mk("declared_twice", format!("value {} declared {} times", n, c), "each exported name declared once per space".into(), vec!["space=value".into(), if name.as_str() == "events.ts" { "what=listener".into() } else { "what=other".into() }]));
         }
+        // a declaration that takes the name of an import (or of the `types` namespace) shadows it:
+        // `export async function invoke` next to `import { invoke }` is a duplicate binding
+        for n in table.value_decls.keys().chain(table.type_decls.keys()) {
+            if table.imports.contains_key(n) || table.namespaces.contains_key(n) {
+                fails.push(mk("declared_twice", format!("{} is imported and declared in the same module", n), "each name bound once per module".into(), vec!["space=value".into(), "what=import_and_declaration".into()]));
+            }
+        }
         if name.as_str() == "index.ts" {
             let mut got: Vec<String> = table.reexports.iter().map(|r| r.trim_start_matches("./").to_string() + ".ts").collect();
             got.sort();
